@@ -189,6 +189,13 @@ def run_job(job):
                     if o_ < len(v):
                         probe(kind, v[:o_] + v[o_ + 1:], "byte at offset %d removed" % o_)
                         stats["len_probes"] += 1
+                # the same fields in another order (adjacent fields exchanged, whole encoding with its halves exchanged)
+                fl_ = sz.fields(kind)
+                for i_ in range(len(fl_) - 1):
+                    (n1, o1, l1, _), (n2, o2, l2, _) = fl_[i_], fl_[i_ + 1]
+                    x_ = v[:o1] + v[o2:o2 + l2] + v[o1:o1 + l1] + v[o2 + l2:]
+                    if x_ != v:
+                        probe(kind, x_, "fields %s and %s in exchanged order" % (n1, n2))
                 probe(kind, v + other, "followed by a second valid encoding")
                 probe(kind, v + v[-1:], "last byte repeated")
                 probe(kind, v[:1] + v, "first byte duplicated")
